@@ -17,7 +17,8 @@ CONSTANTS NK,        \* keys are 0..NK-1
           OpNames,   \* operations explored
           Vals, KIds, \* values and key identities used by inserting operations
           Es,        \* element size (selects the minimum table size)
-          MaxB       \* bound on buckets claimed by the boundedness invariant
+          MaxB,      \* bound on buckets claimed by the boundedness invariant
+          MaxPa      \* hasher panics are injected at invocation 1..MaxPa of every operation (0 = none)
 
 Keys == 0..(NK - 1)
 VARIABLES t, A, hp, chk
@@ -55,6 +56,28 @@ Step(e) ==
      /\ chk' = (c.st = "ok" /\ ActOK(e, t, c.t))
      /\ UNCHANGED hp
 
+KI2(S) == {<<x[1], x[2]>> : x \in S}
+ReservePath(t0, e) ==
+  IF e.op \in {"insert"} /\ 1 > t0.gl THEN (IF t0.items + 1 <= Cap(t0.mask) \div 2 THEN "inplace" ELSE "resize")
+  ELSE IF e.op = "reserve" /\ e.n > t0.gl THEN (IF t0.items + e.n <= Cap(t0.mask) \div 2 THEN "inplace" ELSE "resize")
+  ELSE "none"
+
+(* C04: the k-th hasher invocation inside the operation panics.  Post-unwind obligations (checked through
+   chk and the state invariants): the table satisfies the structural invariant with exact accounting, it
+   holds no element it did not hold before (plus possibly the new one), every element that disappeared was
+   dropped exactly once by a scope guard, and a panic on the growth-into-a-new-allocation path changes nothing. *)
+FaultStep(e, pa) ==
+  LET c == MapOp(e, t, hp, [pa |-> pa, hs |-> <<>>])
+      E1 == Elems(c.t)
+      gone == A \ E1
+  IN /\ c.st = "unwound"              \* only behaviours in which the armed panic really fired
+     /\ t' = c.t
+     /\ A' = E1
+     /\ chk' = /\ KI2(E1) \subseteq KI2(A)
+               /\ c.dr = {x[2] : x \in gone} \ {0}
+               /\ (c.t.mask # t.mask => FALSE)                     \* a failed growth never installs the new table
+               /\ (ReservePath(t, e) = "resize" => E1 = A)         \* hasher panic while growing into a new allocation
+     /\ UNCHANGED hp
 KeyOps == OpNames \cap {"insert", "remove", "remove_entry", "get_mut", "try_insert", "e_or_insert", "e_insert", "e_remove",
                         "e_replace_some", "e_replace_none", "e_and_modify_or_insert", "rc_or_insert", "rc_insert", "rc_remove",
                         "rc_vacant_drop", "re_from_key_or_insert", "re_insert_hashed_nocheck", "re_remove", "e_occ_insert"}
@@ -76,7 +99,14 @@ Next ==
      /\ \E k1, k2 \in Keys, v \in Vals :
           Step(Ev("extend", -1, 0, 0, 0, <<>>, <<>>, <<<<k1, 1, v, 0>>, <<k2, 2, v, 0>>>>))
 
+FNext ==
+  \/ Next
+  \/ \E op \in KeyOps, k \in Keys, id \in KIds, v \in Vals, pa \in 1..MaxPa : FaultStep(Ev(op, k, id, v, 0, <<>>, <<>>, <<>>), pa)
+  \/ \E op \in NumOps, n \in 0..(NK + 2), pa \in 1..MaxPa : FaultStep(Ev(op, -1, 0, 0, n, <<>>, <<>>, <<>>), pa)
+  \/ \E op \in PlainOps, pa \in 1..MaxPa : FaultStep(Ev(op, -1, 0, 0, 0, <<>>, <<>>, <<>>), pa)
+
 Spec == Init /\ [][Next]_vars
+FSpec == Init /\ [][FNext]_vars
 
 ---------------------------------------------------------------------------
 Inv == InvMap(t, TRUE)
